@@ -213,6 +213,30 @@ def op_reject(w, ins):
             args = [x for x in (sn.order or [])[:ins.get('n', 0) % 2]] + [GHOST]
             ok, v = call(w, g.raw.undeclare_vars, *args)
             _after(w, ok, v, f'undeclare_vars{tuple(args)} with an unknown name', must='C14')
+    elif kind == 'load_clash':
+        # a pickle whose variables clash with the receiving manager at a seeded
+        # position of the file's variable table: the receiver declares one
+        # spare name at a level that the file gives to another variable
+        if a is None or len(w.mgrs) < 2 or w.slots_of(1) or m != 0:
+            return 'skip'
+        spare = [k for k in range(w.nv) if k not in dec]
+        if not spare or len(dec) < 2:
+            return 'skip'
+        ok, v = call(w, g.api.dump, 'clash.p', [a.ref])
+        if not ok:
+            return 'skip'
+        g1 = w.new_manager(1, [])
+        lvl = ins.get('pos', 0) % len(dec)
+        nm = w.names[spare[ins.get('alt', 0) % len(spare)]]
+        # fill levels 0..lvl with spare names where possible, else only level 0
+        names1 = [w.names[k] for k in spare[:lvl + 1]]
+        if len(names1) < lvl + 1:
+            names1 = [nm]
+        for x in names1:
+            g1.api.add_var(x)
+        w.touch()
+        ok, v = call(w, g1.api.load, 'clash.p')
+        _after(w, ok, v, f'load of a pickle whose levels clash with the receiver {names1}')
     elif kind == 'extension':
         if a is None:
             return 'skip'
@@ -231,7 +255,8 @@ def op_reject(w, ins):
 
 
 KINDS = ['var', 'let', 'quant', 'cube', 'formula_name', 'formula_syntax', 'formula_node',
-         'foreign', 'unknown_node', 'operator', 'arity', 'level', 'order', 'undeclare', 'extension']
+         'foreign', 'unknown_node', 'operator', 'arity', 'level', 'order', 'undeclare', 'extension',
+         'load_clash']
 
 
 def gen_reject(w, r, cfg):
